@@ -29,7 +29,7 @@ Definition wire_supported (U : universe) (p : proto) (d : descriptor) : Prop :=
   match p with
   | PXml => md_style d = BWrapped \/ xml_nonwrapped = NWFirst
   | PSoap => md_style d = BWrapped \/ soap_nonwrapped = NWFirst
-  | PHier => text_eqb (msg_type_name U d (md_in d)) (md_name d) = true
+  | PHier => hier_bare_lookup = LkSubName \/ text_eqb (msg_type_name U d (md_in d)) (md_name d) = true
   end.
 
 (** the argument list the method's function is entered with *)
